@@ -168,6 +168,16 @@ def payloads(doc, tier, only_dtd=False):
     out.append(('external-entity-network', '%s<!DOCTYPE %s [<!ENTITY x SYSTEM "http://127.0.0.1:9/canary">]>%s&x;%s' % (X, root, start, rest), 'entity'))
     out.append(('external-parameter-entity', '%s<!DOCTYPE %s [<!ENTITY %% p SYSTEM "file://%s.ent"> %%p;]>%s%s' % (X, root, can, start, rest), 'entity'))
     out.append(('entity-bomb', '%s<!DOCTYPE %s [<!ENTITY a "%s"><!ENTITY b "&a;&a;&a;&a;"><!ENTITY c "&b;&b;&b;&b;">]>%s&c;%s' % (X, root, TOKEN, start, rest), 'entity'))
+    # the same hostile documents with an XML comment / processing instruction in them (pre-processing steps keyed on such content must not
+    # come before the hardened parse)
+    out.append(('internal-entity-text-with-comment', '%s<!DOCTYPE %s [<!ENTITY x "%s">]>%s<!-- note -->&x;%s' % (X, root, TOKEN, start, rest), 'entity'))
+    out.append(('internal-entity-prolog-comment', '%s<!-- note --><!DOCTYPE %s [<!ENTITY x "%s">]>%s&x;%s<!-- end -->' % (X, root, TOKEN, start, rest), 'entity'))
+    out.append(('internal-entity-text-with-pi', '%s<!DOCTYPE %s [<!ENTITY x "%s">]>%s<?verif pi?>&x;%s' % (X, root, TOKEN, start, rest), 'entity'))
+    out.append(('internal-entity-cdata-neighbour', '%s<!DOCTYPE %s [<!ENTITY x "%s">]>%s<![CDATA[c]]>&x;%s' % (X, root, TOKEN, start, rest), 'entity'))
+    # references to entities that are declared nowhere: not well-formed (WFC Entity Declared), whatever the name means elsewhere (HTML)
+    for nm in ('verifundeclared', 'nbsp', 'eacute', 'copy'):
+        out.append(('undeclared-entity-text-' + nm, '%s%s&%s;%s' % (X, start, nm, rest), 'malformed'))
+    out.append(('undeclared-entity-attribute-nbsp', '%s%s%s' % (X, start[:-1] + ' verifattr="a&nbsp;b">', rest), 'malformed'))
     out.append(('external-dtd', '%s<!DOCTYPE %s SYSTEM "file://%s.dtd">%s%s' % (X, root, can, start, rest), 'external'))
     out.append(('xinclude', '%s%s<xi:include xmlns:xi="http://www.w3.org/2001/XInclude" href="file://%s" parse="text"/>%s' % (X, start, can, rest), 'external'))
     out.append(('stylesheet-pi', '%s<?xml-stylesheet type="text/xsl" href="file://%s"?>%s%s' % (X, can, start, rest), 'external'))
@@ -177,7 +187,7 @@ def payloads(doc, tier, only_dtd=False):
     out.append(('utf16be-bom-entity', b'\xfe\xff' + ('<?xml version="1.0" encoding="UTF-16"?>' + ent16).encode('utf-16-be'), 'entity'))
     out.append(('utf16-declared-utf8-bytes-entity', ('<?xml version="1.0" encoding="UTF-16"?>' + ent16), 'entity'))
     out.append(('utf8-bom-entity', b'\xef\xbb\xbf' + (X + ent16).encode('utf-8'), 'entity'))
-    out.append(('latin1-declared-entity', ('<?xml version="1.0" encoding="ISO-8859-1"?>' + ent16).encode('latin-1'), 'entity'))
+    out.append(('latin1-declared-entity', ('<?xml version="1.0" encoding="ISO-8859-1"?>' + ent16).encode('latin-1', 'xmlcharrefreplace'), 'entity'))
     out.append(('utf16le-bom-valid', b'\xff\xfe' + ('<?xml version="1.0" encoding="UTF-16"?>' + body).encode('utf-16-le'), 'benign'))
     out.append(('not-xml', 'this is not XML at all', 'malformed'))
     out.append(('empty-root-garbage', body + 'trailing<', 'malformed'))
